@@ -745,8 +745,52 @@ fn create_one<A: Allocator>(dir: &str, tag: &str, file: bool, unify: bool, reser
   let _ = std::fs::remove_file(&p);
 }
 
+fn image_after_history<A: Allocator>(a: &A, reserved: u32) -> Vec<u8> {
+  {
+    let mut h0 = a.alloc_bytes(40).expect("alloc");
+    h0.put_slice(&[0x5A; 40]).unwrap();
+    let h1 = a.alloc_bytes(24).expect("alloc");
+    let mut h2 = a.alloc_bytes(9).expect("alloc");
+    h2.put_slice(&[0x6B; 9]).unwrap();
+    unsafe {
+      h0.detach();
+      h2.detach();
+    }
+    drop(h1);
+  }
+  let mut img = a.memory().to_vec();
+  // the last 4 bytes of the 24-byte header are padding that Header::new never initialises
+  let hoff = ((reserved as usize + 7) & !7) + 8;
+  for b in &mut img[hoff + 20..hoff + 24] {
+    *b = 0;
+  }
+  img
+}
+
+fn images_one<A: Allocator>(dir: &str, tag: &str, reserved: u32, bad: &mut u32) {
+  let p = format!("{dir}/image_{tag}_{reserved}.arena");
+  let _ = std::fs::remove_file(&p);
+  let o = Options::new().with_capacity(1024).with_reserved(reserved).with_unify(true).with_magic_version(9);
+  let v: A = o.alloc::<A>().expect("vec");
+  let m: A = o.map_anon::<A>().expect("anon");
+  let f: A = unsafe { o.with_create_new(true).with_read(true).with_write(true).map_mut::<A, _>(&p).expect("file") };
+  let (iv, im, ifl) = (image_after_history(&v, reserved), image_after_history(&m, reserved), image_after_history(&f, reserved));
+  for (name, img) in [("anonymous-map", &im), ("file", &ifl)] {
+    if let Some(pos) = iv.iter().zip(img.iter()).position(|(a, b)| a != b) {
+      println!("NATIVE L1 violated: [{tag} reserved={reserved}] unified {name} image differs from the Vec image at byte {pos} after the same history");
+      *bad += 1;
+    }
+  }
+  drop(f);
+  let _ = std::fs::remove_file(&p);
+}
+
 fn create_check(dir: &str) -> i32 {
   let mut bad = 0u32;
+  for reserved in [0u32, 1, 5, 8, 13, 64] {
+    images_one::<Arena>(dir, "sync", reserved, &mut bad);
+    images_one::<rarena_allocator::unsync::Arena>(dir, "unsync", reserved, &mut bad);
+  }
   for reserved in [0u32, 5, 13, 64] {
     for unify in [false, true] {
       create_one::<Arena>(dir, "sync", true, unify, reserved, &mut bad);
